@@ -2,7 +2,9 @@
  1. `x = x + e` / `x = x - e` (same simple target on both sides)  ->  `x += e` / `x -= e`
  2. a condition that is given a name in the statement right in front of its ONLY use (`done = d.is_finished()` / `if done and ...:`) is put back
     where it is used.
-Both are spellings of one behaviour; the rules are written against the first form."""
+ 3. a dispatch through a module-level dictionary with constant keys (`elif k in TABLE: f(TABLE[k])`) is written out as the chain of comparisons it
+    stands for (`elif k == K1: f(V1) elif k == K2: f(V2) ...`, in the order of the literal).
+All are spellings of one behaviour; the rules are written against the first form."""
 from __future__ import annotations
 
 import ast
@@ -67,8 +69,50 @@ def _inline_named_conditions(fn: ast.AST) -> None:
                 i += 1
 
 
+def _expand_dict_dispatch(tree: ast.Module) -> None:
+    tables = {}
+    for st in tree.body:
+        tgt, val = None, None
+        if isinstance(st, ast.Assign) and len(st.targets) == 1 and isinstance(st.targets[0], ast.Name):
+            tgt, val = st.targets[0].id, st.value
+        elif isinstance(st, ast.AnnAssign) and isinstance(st.target, ast.Name) and st.value is not None:
+            tgt, val = st.target.id, st.value
+        if tgt and isinstance(val, ast.Dict) and val.keys and all(isinstance(k, (ast.Attribute, ast.Constant)) for k in val.keys) \
+                and all(isinstance(v, (ast.Constant, ast.Attribute, ast.Name)) for v in val.values):
+            tables[tgt] = val
+    if not tables:
+        return
+    stores = {x.id for x in ast.walk(tree) if isinstance(x, ast.Name) and isinstance(x.ctx, ast.Store)}
+
+    def expand(node: ast.If) -> ast.If:
+        t = node.test
+        if not (isinstance(t, ast.Compare) and len(t.ops) == 1 and isinstance(t.ops[0], ast.In) and isinstance(t.left, ast.Name) and isinstance(t.comparators[0], ast.Name)
+                and t.comparators[0].id in tables and list(x.id for x in ast.walk(tree) if isinstance(x, ast.Name) and isinstance(x.ctx, ast.Store)).count(t.comparators[0].id) == 1):
+            return node
+        d, var, dname = tables[t.comparators[0].id], t.left.id, t.comparators[0].id
+        chain, tail = None, node.orelse
+        for k, v in reversed(list(zip(d.keys, d.values))):
+            class Sub(ast.NodeTransformer):
+                def visit_Subscript(self, n):
+                    self.generic_visit(n)
+                    if isinstance(n.value, ast.Name) and n.value.id == dname and isinstance(n.slice, ast.Name) and n.slice.id == var:
+                        return ast.copy_location(copy.deepcopy(v), n)
+                    return n
+            body = [Sub().visit(copy.deepcopy(b)) for b in node.body]
+            test = ast.copy_location(ast.Compare(left=ast.Name(id=var, ctx=ast.Load()), ops=[ast.Eq()], comparators=[copy.deepcopy(k)]), node.test)
+            chain = ast.copy_location(ast.If(test=test, body=body, orelse=(tail if chain is None else [chain])), node)
+        return chain
+
+    class T(ast.NodeTransformer):
+        def visit_If(self, n: ast.If):
+            self.generic_visit(n)
+            return expand(n)
+    T().visit(tree)
+
+
 def canonicalise(tree: ast.Module) -> None:
     _Aug().visit(tree)
+    _expand_dict_dispatch(tree)
     for fn in [x for x in ast.walk(tree) if isinstance(x, (ast.FunctionDef, ast.AsyncFunctionDef))]:
         _inline_named_conditions(fn)
     ast.fix_missing_locations(tree)
